@@ -7,7 +7,7 @@ REQUIRED = ["DaeVerif.C06.Props." + n for n in (
     "sniff_tcp_chunk_invariant", "normalize_ordinary_name", "relay_identity", "sniff_stops_at_deadline",
     "http_host_found",
     "quic_sni_sound", "reassembly_keeps_slices", "quic_flight_found",
-    "unprotect_then_restore", "udp_data_kept", "udp_not_withheld_when_complete",
+    "unprotect_then_restore", "udp_data_kept", "udp_not_withheld_when_complete", "udp_flow_in_order",
 )]
 
 
